@@ -4,7 +4,7 @@
 // inscribed_bbox; src/position.rs: remove_attrs). A surrounding rect equals the box exactly, a
 // circle / ellipse circumscribes it (nonlinear lemma over sqrt2^2 = 2), inscribed shapes stay inside,
 // the containment attributes are removed. Real-number model.
-//@assume SQRT_2^2 = 2 and FRAC_1_SQRT_2^2 = 1/2 exactly (real model); fstr/strp uninterpreted; collecting the referenced boxes (attr_split iterator loop) and BoundingBox::union/intersection (generic iterator folds) are abstracted to union_spec/inter_spec of the listed boxes
+//@assume SQRT_2^2 = 2 and FRAC_1_SQRT_2^2 = 1/2 exactly (real model); fstr/strp uninterpreted; collecting the referenced boxes (attr_split iterator loop) and BoundingBox::union (`reduce` with a closure) is an uninterpreted fold, BoundingBox::intersection is the fold whose meaning is PROVED on the real loop in U-geom (C12.intersection.within_every_box / .greatest / .of_nothing; here only its name inter_spec is used); both are abstracted to union_spec/inter_spec of the listed boxes
 use vstd::prelude::*;
 //@prelude fmt_macro
 verus! {
@@ -109,8 +109,8 @@ pub uninterp spec fn shrunk(b: BoundingBox, t: TrblLength) -> BoundingBox;
 pub open spec fn num0(m: M, k: Seq<char>) -> Option<real> { if m.dom().contains(k) { strp_spec(m[k]) } else { strp_spec("0"@) } }
 
 impl BoundingBox {
-    /// R-abstract: BoundingBox::union / intersection over a Vec (generic iterator folds); the fold
-    /// steps combine / intersect are proved in U-geom
+    /// R-abstract: BoundingBox::union over a Vec (`reduce` with a closure: not translated; its step combine is proved in
+    /// U-geom); BoundingBox::intersection: the real loop is proved in U-geom (C12.intersection.*), only named here
     #[verifier::external_body] pub fn union(v: Vec<BoundingBox>) -> (r: Option<BoundingBox>) ensures r == union_spec(v@) { unimplemented!() }
     #[verifier::external_body] pub fn intersection(v: Vec<BoundingBox>) -> (r: Option<BoundingBox>) ensures r == inter_spec(v@) { unimplemented!() }
     #[verifier::external_body] pub fn expand_trbl_length(&mut self, t: TrblLength) ensures *final(self) == expanded(*old(self), t) { unimplemented!() }
